@@ -49,6 +49,15 @@ pub(crate) mod hooks {
 
     /// H5: fault points inside `State::write`.
     pub(crate) async fn fault_point(name: &'static str) -> Result<(), std::io::Error> {
+        if name == "state.write.before_tmp" && sim().is_some() {
+            // Let every other task of the process and of the fakes run until it blocks. While the
+            // file operations that follow are in flight the paused clock cannot advance, so
+            // nothing else becomes runnable and the write is atomic with respect to the scheduler:
+            // the real-time duration of `tokio::fs` calls cannot reorder simulated events.
+            for _ in 0..48 {
+                tokio::task::yield_now().await;
+            }
+        }
         let action = match sim() {
             Some(shared) => lock(&shared).on_fault_point(name),
             None => 0,
@@ -69,6 +78,9 @@ pub(crate) mod hooks {
 
     impl AfterRenameGuard {
         pub(crate) fn new() -> Self {
+            if let Some(shared) = sim() {
+                lock(&shared).on_write_begin();
+            }
             Self(())
         }
     }
